@@ -235,6 +235,12 @@ impl BitPackedInts {
         }
 
         let bits_per_value = bytes[0];
+        if bits_per_value > 64 {
+            return Err(io::Error::new(
+                io::ErrorKind::InvalidData,
+                "BitPackedInts bit width exceeds 64",
+            ));
+        }
         let count = u32::from_le_bytes(bytes[1..5].try_into().unwrap()) as usize;
 
         let num_words = if bits_per_value == 0 || count == 0 {
